@@ -1600,3 +1600,87 @@ class M_run_recurrent_subgraph(CoroBase):
             out.append(('error-only-when-no-default-applies|C11', z3.Not(z3.And(
                 use_default, PyV.is_rec(T(final, st)) if final is not None else True))))
         return out
+
+
+# ======================================================================================
+# run  (C13, C05, C01, C02)
+# ======================================================================================
+@contract
+class M_run(CoroBase):
+    name = 'DAGRunConcurrentManager.run'
+    returns = 'val'
+    yields = True
+    props = ('C13', 'C05', 'C01', 'C02', 'C10')
+    doc = ('starts the main dag as a registered task, waits until a task failed or the output has a result, returns the '
+           'output value or raises the failed task\'s exception; on every exit every registered task is finished or '
+           'has a cancel request')
+
+    def setup(self, it):
+        return new_manager(it), CallArgs()
+
+    def requires(self, it, pre, a):
+        m = self.mv(pre, a)
+        return base_requires(m) + [('graph-well-formed', graph_wf(m)), ('switch-nodes-well-formed', switch_wf(m)),
+                                   ('end-points-in-graph', z3.And(m.G.node(m.input), m.G.node(m.output)))]
+
+    def other_raises(self, it, pre, a):
+        return [ExcCase('a-task-failed', None, may=True)]
+
+    def common(self, it, pre, a, outcome, effects):
+        """clauses that hold on every exit, cancelled or not"""
+        st = it.st
+        stops = calls(effects, '_stop_coro_tasks')
+        out = [('every-exit-stops-the-remaining-tasks|C13', len(stops) >= 1)]
+        if stops:
+            last = stops[-1]
+            m = self.mv(last.pre, a)
+            v = z3.Const('stv', PyV)
+            j = z3.Int('stj')
+            seq = last.a.seq
+            out += [
+                ('the-whole-registry-is-stopped|C13', FA([v], z3.Implies(m.tasks.contains(v), z3.Exists(
+                    [j], z3.And(j >= 0, j < seq.len, seq.at(j) == v))), patterns=[m.tasks.contains(v)])),
+                ('nothing-is-started-or-awaited-after-stopping|C13', not [e for e in effects[effects.index(last) + 1:]
+                                                                         if is_work(e) or e.kind == 'yield']),
+            ]
+        return out
+
+    def trace(self, it, pre, post, a, outcome, value, effects):
+        st = it.st
+        m0 = self.mv(pre, a)
+        out = self.common(it, pre, a, outcome, effects)
+        sps = spawns(effects)
+        ok = len(sps) == 1 and sps[0].fn.endswith('._run_dag') and len(calls(effects, '_create_task')) == 1
+        out.append(('main-dag-started-once-as-a-registered-task|C13,C01', ok))
+        if ok:
+            g, snap = dag_arg_view(it, sps[0])
+            if snap.getf(g, 'g_kind') != 'view':
+                gv = SubV(snap, g)
+                out += [('main-dag-goes-from-input-to-output|C01', z3.And(gv.source == m0.input, gv.dest == m0.output)),
+                        ('main-dag-is-a-plain-scope|C10,C11', z3.And(z3.Not(gv.is_oneof), z3.Not(gv.is_recurrent), z3.Not(gv.is_nested_oneof))),
+                        ('main-dag-ignores-case-edges|C09', snap.getf(g, 'g_fedge') is not None)]
+            out += spawn_preconditions(it, sps[0], self.name)
+        waits = [e for e in effects if e.kind == 'wait']
+        ok = len(waits) == 1 and z3.is_true(z3.simplify(waits[0].cond == RUN))
+        out.append(('waits-on-the-RUN-condition|C02', ok))
+        if ok:
+            w = waits[0]
+            mw = self.mv(w.snap, a)
+            tv = z3.Const('wtv', PyV)
+            from pyvc.values import as_bool_term
+            first = as_z3(as_bool_term(w.first))
+            out.append(('does-not-block-once-a-task-failed (wake predicate adequate)|C02', z3.Implies(
+                z3.Exists([tv], z3.And(mw.tasks.contains(tv), mw.task_st(PyV.tid(tv)) == T_EXC)), first)))
+            out.append(('does-not-block-once-the-output-has-a-result (wake predicate adequate)|C02', z3.Implies(
+                mw.S.R.vis(mw.output), first)))
+        res = calls(effects, '_get_dag_result')
+        if outcome == 'return':
+            out.append(('value-comes-from-_get_dag_result|C01,C05', len(res) == 1 and res[0].exc is None and
+                        z3.simplify(T(value, st) == T(res[0].res, st))))
+        else:
+            out.append(('raises-only-what-_get_dag_result-raised (an exception carried by one of its tasks)|C05',
+                        len(res) == 1 and res[0].exc is not None and z3.simplify(value.t == res[0].exc.t)))
+        return out
+
+    def cancel_trace(self, it, pre, post, a, outcome, value, effects):
+        return self.common(it, pre, a, outcome, effects) + [('a-cancelled-run-raises|C13', outcome == 'raise')]
